@@ -167,6 +167,54 @@ pub fn cut_file(r: &mut R, idx: u64) -> (Cfg, Vec<Entry>) {
     // framed size of an entry with key length kl (< 128 .. 16383) and value length vl
     let fl = |n: usize| if n < 128 { 1 } else if n < 16384 { 2 } else { 3 };
     let size_of = |n: usize, e: usize| n * e + 8 * ((n + interval - 1) / interval).max(1) + 4;
+    if idx % 7 == 5 {
+        // lengths framed on three bytes (>= 2^14): two entries of 16 KiB .. 32 KiB land a data block
+        // exactly on B (or B +- 1), with the long length on the value or on the key
+        let b = *pick(r, &[40_000usize, 50_001, 65_536]);
+        let delta = *pick(r, &[0isize, 0, 0, -1, 1]);
+        let target = (b as isize + delta) as usize;
+        let interval = *pick(r, &[1usize, 8, 8]);
+        let long_keys = r.gen_bool(0.3);
+        // two entries: 2 x (1 + 3 + 4 + long) when the value is long, 2 x (3 + 1 + long) when the key
+        // is (its first 4 bytes are the counter), + 8 per offset slot + 4
+        let slots = if interval == 1 { 2 } else { 1 };
+        let fixed = if long_keys { 2 * (3 + 1) } else { 2 * (1 + 3 + 4) } + 8 * slots + 4;
+        let total = target - fixed;
+        let (l1, l2) = (total / 2, total - total / 2);
+        let nblocks = r.gen_range(2..5usize);
+        let n = 2 * nblocks + r.gen_range(0..2);
+        let entries = (0..n as u32)
+            .map(|i| {
+                let len = if i % 2 == 0 { l1 } else { l2 };
+                if long_keys {
+                    // the counter first: the two key lengths may differ by one
+                    let mut k = (i * 2 + 5).to_be_bytes().to_vec();
+                    k.resize(len, 0x42);
+                    (k, vec![])
+                } else {
+                    ((i * 2 + 5).to_be_bytes().to_vec(), value_for(i + 1, len))
+                }
+            })
+            .collect();
+        let cfg = Cfg { codec: *pick(r, &[0u8, 0, 5]), level: 0, block_size: b, interval, levels: *pick(r, &[0u8, 1, 2]) };
+        return (cfg, entries);
+    }
+    if idx % 7 == 3 {
+        // keys about as long as a block: every index entry alone reaches B, so index blocks at any
+        // depth hold one entry each and must be dumped one by one
+        let b = *pick(r, &[1024usize, 1024, 2048]);
+        let kl = *pick(r, &[b - 24, b - 23, b - 22, b - 1, b, b + 76, 2 * b + 52]);
+        let n = r.gen_range(3..14u32);
+        let entries = (0..n)
+            .map(|i| {
+                let mut k = vec![0x42u8; kl - 4];
+                k.extend_from_slice(&(i * 2 + 5).to_be_bytes());
+                (k, value_for(i + 1, *pick(r, &[0usize, 0, 7, 300])))
+            })
+            .collect();
+        let cfg = Cfg { codec: *pick(r, &[0u8, 0, 5]), level: 0, block_size: b, interval: *pick(r, &[1usize, 8]), levels: *pick(r, &[2u8, 2, 3, 4]) };
+        return (cfg, entries);
+    }
     let mode = idx % 3;
     if mode == 0 {
         // index blocks at depth >= 2 land exactly on B (or B +- 1): choose the key length
